@@ -36,9 +36,13 @@ LETTERS = {
     'OKx': b'OK not-hex!', 'OK0': b'OK', 'Dh': b'DATA 6162', 'Dj': b'DATA zz', 'D0': b'DATA', 'ER': b'ERROR',
     'ERt': b'ERROR "no way"', 'AG': b'AGREE_UNIX_FD', 'UK': b'WHATEVER x', 'EM': b'', 'NU': b'\xff\xfe\xfd',
     'OKs': b'OK  ' + GUIDHEX + b' ', 'LC': b'ok ' + GUIDHEX, 'Dc': b'DATA ' + binascii.hexlify(b'ctx 1 abcdef'),
+    # hex digits, but not ONE hexadecimal string: blanks / tabs between byte pairs, an extra hex token
+    'OKw': b'OK 0123456789abcdef 0123456789abcdef', 'OKb': b'OK 01 23 45 67', 'OKtab': b'OK 0123\t4567',
+    'OKodd': b'OK 012', 'OK0x': b'OK 0x0123456789abcdef',
 }
-CORE = ['RJ', 'OKh', 'OKx', 'OK0', 'Dh', 'Dj', 'D0', 'ER', 'AG', 'UK', 'EM']
+CORE = ['RJ', 'OKh', 'OKx', 'OK0', 'OKw', 'Dh', 'Dj', 'D0', 'ER', 'AG', 'UK', 'EM']
 KIND = {'RJ': 'rejected', 'RJ0': 'rejected', 'OKh': 'ok', 'OKs': 'ok', 'OKx': 'ok_bad', 'OK0': 'ok_bad',
+        'OKw': 'ok_bad', 'OKb': 'ok_bad', 'OKtab': 'ok_bad', 'OKodd': 'ok_bad', 'OK0x': 'ok_bad',
         'Dh': 'data', 'Dj': 'data', 'D0': 'data', 'Dc': 'data', 'ER': 'error', 'ERt': 'error', 'AG': 'agree',
         'UK': 'outside', 'EM': 'outside', 'NU': 'outside', 'LC': 'outside'}
 SPLITS = ['bytes', 'one', 'crlf', 'cuts']
@@ -420,7 +424,7 @@ def classify_handshake(case):
 
 SUBCHECKS = [
     Subcheck('lines_enum', run_lines, classify_lines, enumerate=enum_lines, shards={'quick': 8, 'thorough': 16},
-             exhaustive_note='all sequences of length 1..4 (quick) / 1..5 (thorough) over 11 abstract server lines x '
+             exhaustive_note='all sequences of length 1..4 (quick) / 1..5 (thorough) over 12 abstract server lines x '
                              '{UNIX, non-UNIX} transport'),
     Subcheck('lines_random', run_lines, classify_lines, strategy=lambda tier: random_lines(tier),
              n={'quick': 300, 'thorough': 3000}),
